@@ -110,6 +110,18 @@ func TestVerifC01(t *testing.T) {
 				sel := []vfC01Cfg{cfgs[0], cfgs[1%len(cfgs)], cfgs[(2+k)%len(cfgs)], cfgs[(5+k)%len(cfgs)]}
 				cfgs = sel
 			}
+			// seeded configurations: start times that are not multiples of the loop duration (the loop phase of the
+			// availabilityStartTime then differs from that of the epoch), arbitrary start numbers
+			rng := r.Rand(int64(1000 + caseNo))
+			modes := []string{"number", "time", "tlnr"}
+			if rp.ContentType == "image" {
+				modes = []string{"number"}
+			}
+			for k := 0; k < r.Pick(1, 14); k++ {
+				st := []int64{1 + rng.Int63n(100_000), 1_000_000 + rng.Int63n(1_000_000_000), 1_600_000_000 + rng.Int63n(200_000_000)}[rng.Intn(3)]
+				sn := []int{-1, rng.Intn(10), 10 + rng.Intn(100_000)}[rng.Intn(3)]
+				cfgs = append(cfgs, vfC01Cfg{modes[rng.Intn(len(modes))], sn, st})
+			}
 			for _, cfg := range cfgs {
 				// index windows: 0..3N+2 consecutively, then N+2 windows at far wraps and far instants
 				var idx []int64
@@ -117,6 +129,9 @@ func TestVerifC01(t *testing.T) {
 					idx = append(idx, n)
 				}
 				far := []int64{10 * N, 1000 * N, 100000 * N}
+				for k := 0; k < r.Pick(1, 10); k++ { // seeded wraps
+					far = append(far, (3+rng.Int63n(2_000_000))*N)
+				}
 				for _, nowMS := range []int64{2_000_000_000_000, 3_000_000_000_000} {
 					if nowMS > cfg.startS*1000 {
 						far = append(far, a.NewestAvail(rp, nowMS, cfg.startS, 0))
